@@ -70,13 +70,89 @@ def main(tier):
         for (i, t) in st.get('bad', []):
             x = recs[i - 1]
             vd.violation('peel:' + t, '%s: n=%d edges=%s %s' % (t, x['n'], x['edges'][:40], x.get('what', '')[:200]), x if x['n'] <= 12 else {'n': x['n'], 'edges': x['edges']})
-    ev.cov['evaluations'] = len(lines)
-    ev.cov['distinct_nontrivial'] = nontriv
-    ev.cov['traces_validated_against_impl'] = len(lines)
+    # ---- second stage: planarisation of orthogonally routed graphs (Planar.tla)
+    PL = os.path.join(SP, 'Planar.tla')
+    U = 10                                   # input units per grid step of the generator's doubled grid
+    pcfg = os.path.join(d, 'plgen.cfg')
+    open(pcfg, 'w').write('SPECIFICATION GenSpec\nCONSTANTS\n GN = 3\n GMAXN = %d\n GMAXE = %d\nCHECK_DEADLOCK FALSE\n' % ((3, 3) if quick else (4, 3)))
+    pgf = os.path.join(d, 'plgen.json')
+    empty = os.path.join(d, 'empty.json')
+    json.dump({'recs': [], 'chunk': 1, 'GU': 1, 'S': 1}, open(empty, 'w'))
+    rg = V.tlc(PL, pcfg, env={'PLANARGEN': pgf, 'PLANARRECS': empty}, workers=1, timeout=1500, mem='12g')
+    fam = json.load(open(pgf))
+    plines = []
+    def pline(nodes, edges):
+        # nodes: [(x, y)] in grid units; edges: [(ui, vi, [(x, y)...])]
+        return '%d %s %d %s' % (len(nodes), ' '.join('%d %d 8 8' % (x * U, y * U) for x, y in nodes), len(edges),
+                                ' '.join('%d %d %d %s' % (u, v, len(rt), ' '.join('%d %d' % (x * U, y * U) for x, y in rt)) for u, v, rt in edges))
+    chosen = fam if len(fam) <= (3000 if quick else 60000) else rnd.sample(fam, 3000 if quick else 60000)
+    for g in chosen:
+        nodes = [tuple(p) for p in g['nodes']]
+        plines.append(pline(nodes, [(nodes.index(tuple(e[0][0])) + 1, nodes.index(tuple(e[0][1])) + 1, [tuple(p) for p in e[1]]) for e in g['edges']]))
+    nenum = len(plines)
+    # seeded random routed graphs: up to 40 nodes on a 12x12 doubled grid, straight/L/Z routes that stay clear of third nodes
+    def on_seg(o, a, b):
+        return (a[0] == b[0] == o[0] and min(a[1], b[1]) <= o[1] <= max(a[1], b[1])) or (a[1] == b[1] == o[1] and min(a[0], b[0]) <= o[0] <= max(a[0], b[0]))
+    for _ in range(300 if quick else 5000):
+        side = rnd.randint(3, 12)
+        cells = [(2 * x, 2 * y) for x in range(side) for y in range(side)]
+        nodes = rnd.sample(cells, min(len(cells), rnd.randint(2, 40)))
+        edges, used = [], set()
+        for _e in range(rnd.randint(1, 2 * len(nodes))):
+            a, b = rnd.sample(range(len(nodes)), 2)
+            if (min(a, b), max(a, b)) in used:
+                continue
+            p, q = nodes[a], nodes[b]
+            cands = []
+            if p[0] == q[0] or p[1] == q[1]:
+                cands.append([p, q])
+            else:
+                cands += [[p, (q[0], p[1]), q], [p, (p[0], q[1]), q]]
+                mx = rnd.randrange(min(p[0], q[0]), max(p[0], q[0]) + 1)       # Z-shapes through an odd or even intermediate line
+                my = rnd.randrange(min(p[1], q[1]), max(p[1], q[1]) + 1)
+                if mx not in (p[0], q[0]):
+                    cands.append([p, (mx, p[1]), (mx, q[1]), q])
+                if my not in (p[1], q[1]):
+                    cands.append([p, (p[0], my), (q[0], my), q])
+            rnd.shuffle(cands)
+            for rt in cands:
+                if all(not on_seg(o, rt[i], rt[i + 1]) for i in range(len(rt) - 1) for k, o in enumerate(nodes) if k not in (a, b)):
+                    edges.append((a + 1, b + 1, rt)); used.add((min(a, b), max(a, b)))
+                    break
+        if edges:
+            plines.append(pline(nodes, edges))
+    pt = os.path.join(d, 'planar.txt')
+    open(pt, 'w').write('\n'.join(plines) + '\n')
+    prf = os.path.join(d, 'planar.json')
+    rc, out = V.run([hd, 'planar', pt, prf], timeout=1800)
+    if rc != 0:
+        raise V.Broken('h_dialect planar failed rc=%d: %s' % (rc, out[-1500:]))
+    pdata = json.load(open(prf))
+    pdata['GU'] = U * pdata['S']
+    json.dump(pdata, open(prf, 'w'))
+    open(pcfg, 'w').write('SPECIFICATION Spec\nCONSTANTS\n GN = 1\n GMAXN = 1\n GMAXE = 1\nINVARIANT Planarised\nCHECK_DEADLOCK FALSE\n')
+    rp = V.tlc(PL, pcfg, env={'PLANARRECS': prf, 'PLANARGEN': '/dev/null'}, timeout=3000, cont=True, mem='16g')
+    ev.add_tlc('Planar records: %d routed graphs (%d enumerated + random)' % (len(plines), nenum), rp)
+    pnontriv = sum(v[0] for v in V.stat(rp.out, 'planar'))
+    for inv, st in V.violating_states(rp):
+        for (i, t) in st.get('bad', []):
+            x = pdata['recs'][i - 1]
+            key = 'planar:' + t
+            if t == 'assertion':
+                m = re.search(r'expression: (.*?)(\n| \||$)', x.get('what', ''))
+                key = 'planar:assertion:' + (re.sub(r'[^A-Za-z0-9_>!=<.()-]+', '', m.group(1))[:50] if m else '')
+            vd.violation(key, '%s: nodes=%s routes=%s -> planar nodes=%s edges=%s %s' % (t, x['nodes'], [(e['u'], e['v'], e['pts']) for e in x['edges']][:12], x['pn'][:30], x['pe'][:40], x.get('what', '')[:200]),
+                         x if x['n'] <= 10 else {'n': x['n'], 'nodes': x['nodes'], 'edges': x['edges']})
+    ev.cov['planar_routed_graphs'] = len(plines)
+    ev.cov['planar_nontrivial'] = pnontriv
+    ev.cov['evaluations'] = len(lines) + len(plines)
+    ev.cov['distinct_nontrivial'] = nontriv + pnontriv
+    ev.cov['traces_validated_against_impl'] = len(lines) + len(plines)
     ev.cov['rule'] = ('graphs = every simple connected graph on %d labelled nodes (TLC-enumerated, %d graphs) + %d seeded random connected graphs up to 60 nodes (trees, cycles with tails, sparse, dense) '
-                      '+ disconnected unions for the component clause; non-trivial = non-empty core and at least one tree' % (gn, len(graphs), nrand))
+                      '+ disconnected unions for the component clause; non-trivial = non-empty core and at least one tree. Planarisation: every routed graph of <=%d nodes on a 3x3 grid with <=3 edges routed straight or as an L (TLC-enumerated, %d) '
+                      '+ seeded random routed graphs (<=40 nodes, straight/L/Z routes, overlapping and crossing routes included); non-trivial = a new node of degree >= 3 (a crossing or a merge point)' % (gn, len(graphs), nrand, 3 if quick else 4, nenum))
     ev.sample({'n': recs[7]['n'], 'edges': recs[7]['edges'], 'core': recs[7].get('core'), 'trees': [t['g'] for t in recs[7].get('trees', [])]})
-    ev.assumptions = ['planarisation is checked by the second stage of this check (Planar.tla) when present']
+    ev.assumptions = ['routes handed to the planariser are given directly (grid routes), not produced by LeaflessOrthoRouter; route corners and segments stay clear of third nodes']
     rc2 = vd.finish()
     ev.write()
     return rc2
